@@ -40,8 +40,12 @@ var solvers = []solverSpec{
 }
 
 func runSolver(s solverSpec, file string, timeoutS, seed int) (string, string, float64) {
+	return runSolverCtx(context.Background(), s, file, timeoutS, seed)
+}
+
+func runSolverCtx(parent context.Context, s solverSpec, file string, timeoutS, seed int) (string, string, float64) {
 	args := s.args(file, timeoutS, seed)
-	ctx, cancel := context.WithTimeout(context.Background(), time.Duration(timeoutS+5)*time.Second)
+	ctx, cancel := context.WithTimeout(parent, time.Duration(timeoutS+5)*time.Second)
 	defer cancel()
 	cmd := exec.CommandContext(ctx, args[0], args[1:]...)
 	var out bytes.Buffer
@@ -64,30 +68,44 @@ func runSolver(s solverSpec, file string, timeoutS, seed int) (string, string, f
 	return "error", text, el
 }
 
-// solve runs the portfolio on one query. For validity obligations: unsat = discharged.
+// solve races the portfolio on one query. For validity obligations: unsat = discharged.
 func solve(query, file string, timeoutS, seed int, wantModel bool, confirm bool) *SolveResult {
 	_ = os.MkdirAll(filepath.Dir(file), 0o755)
 	_ = os.WriteFile(file, []byte(query), 0o644)
 	res := &SolveResult{File: file}
 	t0 := time.Now()
-	var unsatBy []string
+	type ans struct {
+		s      solverSpec
+		st, raw string
+	}
+	ctx, cancel := context.WithCancel(context.Background())
+	defer cancel()
+	ch := make(chan ans, len(solvers))
 	for _, s := range solvers {
-		st, raw, _ := runSolver(s, file, timeoutS, seed)
-		res.Tried = append(res.Tried, s.name+":"+st)
-		switch st {
+		go func(s solverSpec) {
+			st, raw, _ := runSolverCtx(ctx, s, file, timeoutS, seed)
+			ch <- ans{s, st, raw}
+		}(s)
+	}
+	var unsatBy []string
+	for range solvers {
+		a := <-ch
+		res.Tried = append(res.Tried, a.s.name+":"+a.st)
+		switch a.st {
 		case "unsat":
-			unsatBy = append(unsatBy, s.name)
+			unsatBy = append(unsatBy, a.s.name)
 			if !confirm || len(unsatBy) >= 2 {
 				res.Status, res.Solver = "unsat", strings.Join(unsatBy, "+")
 				res.TimeS = time.Since(t0).Seconds()
 				return res
 			}
 		case "sat":
-			res.Status, res.Solver = "sat", s.name
+			res.Status, res.Solver = "sat", a.s.name
+			cancel()
 			if wantModel {
 				mf := file + ".model.smt2"
 				_ = os.WriteFile(mf, []byte(query+"(get-model)\n"), 0o644)
-				_, mraw, _ := runSolver(s, mf, timeoutS, seed)
+				_, mraw, _ := runSolver(a.s, mf, timeoutS, seed)
 				if i := strings.Index(mraw, "\n"); i >= 0 {
 					res.Model = mraw[i+1:]
 				}
@@ -96,18 +114,13 @@ func solve(query, file string, timeoutS, seed int, wantModel bool, confirm bool)
 			res.TimeS = time.Since(t0).Seconds()
 			return res
 		case "error":
-			res.Raw += s.name + ": " + firstLines(raw, 5) + "\n"
+			res.Raw += a.s.name + ": " + firstLines(a.raw, 5) + "\n"
 		}
 	}
 	if len(unsatBy) > 0 {
 		res.Status, res.Solver = "unsat", strings.Join(unsatBy, "+")
 	} else {
 		res.Status = "unknown"
-		for _, t := range res.Tried {
-			if !strings.HasSuffix(t, ":error") {
-				res.Status = "unknown"
-			}
-		}
 		allErr := true
 		for _, t := range res.Tried {
 			if !strings.HasSuffix(t, ":error") {
@@ -143,6 +156,11 @@ func dischargeAll(obls []*Obligation, dir string, timeoutS, seed, workers int, c
 				q := renderQuery(o, seed)
 				f := filepath.Join(dir, fmt.Sprintf("%04d_%s.smt2", i, fileSafe(o.Func+"#"+o.Name)))
 				confirm := confirmTop && o.Kind == "ensures"
+				if o.WantSat {
+					// vacuity cover: only a proof of unsatisfiability matters; sat or unknown both mean "not shown vacuous"
+					o.Result = solveCover(q, f, seed)
+					continue
+				}
 				o.Result = solve(q, f, timeoutS, seed, !o.WantSat, confirm)
 				if o.Result.Status == "unknown" || o.Result.Status == "timeout" {
 					// one retry with a longer budget
@@ -172,4 +190,12 @@ func fileSafe(s string) string {
 		r = r[:120]
 	}
 	return r
+}
+
+func solveCover(query, file string, seed int) *SolveResult {
+	_ = os.MkdirAll(filepath.Dir(file), 0o755)
+	_ = os.WriteFile(file, []byte(query), 0o644)
+	t0 := time.Now()
+	st, _, _ := runSolver(solvers[0], file, 3, seed)
+	return &SolveResult{Status: st, Solver: solvers[0].name, TimeS: time.Since(t0).Seconds(), File: file, Tried: []string{solvers[0].name + ":" + st}}
 }
